@@ -251,7 +251,7 @@ def _gen_tracked(kind, ch, uniq):
         n = [0, 1, 2, 3, 5, 300][ch.weighted("tracked-len", [3, 4, 4, 3, 2, 1])]
         uniq[0] += 1
         return bytes(((uniq[0] * 7 + i) % 26) + 97 for i in range(n))
-    n = ch.weighted("tracked-n", [3, 4, 3, 2])
+    n = [0, 1, 2, 3, 260][ch.weighted("tracked-n", [6, 8, 6, 4, 1])]       # 260 elements: the computed count does not fit an Int(1)
     uniq[0] += 1
     return [(uniq[0] * 5 + i) % 256 for i in range(n)]
 
